@@ -742,6 +742,27 @@ theorem thaw_freeze_level_same_map (h : Nat → Nat) (rank : Nat → Nat) (hr : 
   have hw := thaw_flat_spec h _ ht.1
   exact ⟨hw.1, hw.2.1, by rw [hw.2.2]; exact funext (fun k => by rw [ht.2.2 k, hf.2.1 k])⟩
 
+/-- **`janet_struct_end`** (including the rebuild when fewer entries arrived than announced): struct invariant, the
+entries of the builder, `length` = number of live buckets, no prototype -/
+theorem struct_end_spec (h : Nat → Nat) (rank : Nat → Nat) (hr : RankInj rank) (b : StructB) (inv : BInv h b) :
+    SInv h (structEnd h rank b) ∧ (∀ k v, Ent (structEnd h rank b).data k v ↔ Ent b.data k v) ∧
+    (structEnd h rank b).length = b.filled ∧ nLive (structEnd h rank b).data = (structEnd h rank b).length ∧
+    (structEnd h rank b).proto = none :=
+  structEnd_spec h rank hr b inv
+
+/-- **struct literals / `struct` / `struct/with-proto` with pairwise distinct keys**: the struct invariant holds and
+the entries are exactly the arguments whose value is not nil (a nil value drops the pair) -/
+theorem struct_literal_spec (h : Nat → Nat) (rank : Nat → Nat) (hr : RankInj rank) (kvs : List (Nat × Val))
+    (hd : kvs.Pairwise (fun s s' => s.1 ≠ s'.1)) (n : Nat) (hn : kvs.length ≤ n) :
+    SInv h (structEnd h rank (putArgs h rank (structBegin n) kvs)) ∧
+    (∀ k v, Ent (structEnd h rank (putArgs h rank (structBegin n) kvs)).data k v ↔ ((k, v) ∈ kvs ∧ v ≠ vNil)) ∧
+    nLive (structEnd h rank (putArgs h rank (structBegin n) kvs)).data =
+      (structEnd h rank (putArgs h rank (structBegin n) kvs)).length :=
+  structLiteral_spec h rank hr kvs hd n hn
+
+/-- non-vacuity: a literal with colliding keys and a nil value: two entries survive, the struct is rebuilt -/
+example : (structEnd (fun k => 7 * k) id (putArgs (fun k => 7 * k) id (structBegin 3) [(1, 5), (9, 0), (17, 7)])).length = 2 := by decide
+
 /-- non-vacuity: the hypotheses hold for a concrete table with colliding keys and a tombstone; the struct built from
 it has the three entries -/
 example : ((run (fun k => 7 * k) (Table.init 0)
